@@ -23,7 +23,7 @@ pub fn parse(s: &str) -> Result<anstyle::Style, Error> {
     let mut num_colors = 0;
     let mut effects = anstyle::Effects::new();
     for word in s.split_whitespace() {
-        match word.to_lowercase().as_ref() {
+        match word.to_ascii_lowercase().as_ref() {
             "nobold" | "no-bold" => {
                 effects = effects.remove(anstyle::Effects::BOLD);
             }
